@@ -17,6 +17,7 @@ from ahbicht.expressions.ahb_expression_evaluation import evaluate_ahb_expressio
 from ahbicht.expressions.condition_expression_parser import extract_categorized_keys_from_tree
 from ahbicht.expressions.expression_resolver import (
     AhbExpressionResolverTransformer,
+    expand_time_conditions,
     parse_expression_including_unresolved_subexpressions,
 )
 from ahbicht.models.content_evaluation_result import ContentEvaluationResult
@@ -49,7 +50,7 @@ async def is_valid_expression(
             # The tree comes straight from the ahb expression parser: its condition expressions are still plain text,
             # so there are no keys to extract yet. Resolve them first (just like for a str).
             try:
-                tree = AhbExpressionResolverTransformer().transform(tree)
+                tree = expand_time_conditions(AhbExpressionResolverTransformer().transform(tree))
             except VisitError as visit_err:
                 if isinstance(visit_err.orig_exc, SyntaxError):
                     return False, str(visit_err.orig_exc)
